@@ -47,6 +47,7 @@ class C05(Prop):
                     Layer("RE-pairs(<=3)", lambda: GR.pair_cases(3), policies=nat)]
         return [Layer("RE-tok(<=5)", lambda: GR.tok_texts(0, 5), policies=nat),
                 Layer("RE-ast(<=6)", lambda: GR.ast_cases(1, 6), policies=nat + ["1"]),
+                Layer("RE-ast(7)", lambda: GR.ast_cases(7, 7), policies=nat),
                 Layer("RE-pairs(<=4)", lambda: GR.pair_cases(4), policies=nat)]
 
     # ---- per-case data
